@@ -223,8 +223,11 @@ def make_registry(R, spec, variant=0):
         # same names, different signatures: environments must not leak registrations into each other
         mine = sigs[:len(mine)]
     reg = {}
+    # every name the grammar allows (LCALPHA *(LCALPHA / "_" / DIGIT)), including names that begin like a keyword or a
+    # standard function
+    special = ["nullable", "falsey", "true_1", "null_", "trueish", "t", "n", "length2", "count_", "v1_2_3", "nulls", "matches", "valueof", "searcher", "falses", "x_"]
     for i, (params, ret) in enumerate(mine):
-        reg["f%d" % i if i % 3 else "fn_%d" % i] = (params, ret)
+        reg[special[(i // 4) % len(special)] if i % 4 == 1 else ("f%d" % i if i % 3 else "fn_%d" % i)] = (params, ret)
     return reg
 
 
@@ -399,7 +402,7 @@ def reconfigure_case(rec, R, text, q, user, registries, b, bounds_choices):
 def reason_class(s):
     import re
     s = re.sub(r"-?[0-9]+", "N", s or "")
-    s = re.sub(r"\b(fn_N|fN|length|count|value|match|search|nope|undefined_fn)\(\)", "F()", s)
+    s = re.sub(r"\b(fn_N|fN|length|count|value|match|search|nope|undefined_fn|nullable|falsey|true_N|null_|trueish|t|n|lengthN|count_|vN_N_N|nulls|matches|valueof|searcher|falses|x_)\(\)", "F()", s)
     s = re.sub(r"'[^']*'", "'..'", s)
     return s[:70]
 
